@@ -21,8 +21,9 @@ RULES = {
     "R3": "thinning congruence b - a + 1 + offset == 0 (mod thin); recorded value is the state after the step of the same iteration",
     "R4": "stream derivation: default_rng(SeedSequence(seed).spawn(n_chains)[chain_index]); slice = {seed, n_chains, chain_index}",
     "R5": "VI arm: model.sample(num_samples=results.n_thetas) once, outside loops; every returned sample is added",
+    "R6": "0 is a legal burn-in length and a legal chain index: no refusal of sample() fires because n_burnin / chain_index is 0",
 }
-MIN = {"R1": 2, "R2": 2, "R3": 2, "R4": 2, "R5": 1}
+MIN = {"R1": 2, "R2": 2, "R3": 2, "R4": 2, "R5": 1, "R6": 2}
 TRUSTED = ["numpy SeedSequence.spawn yields independent child sequences; a fresh SeedSequence(seed) is a function of seed only",
            "tqdm.trange(n) iterates 0..n-1"]
 TECHNIQUE = "dominance and loop-shape rules on the CFG, congruence check of the thinning predicate over the polynomial normal form, backward slice of the generator"
@@ -397,7 +398,39 @@ def r5(ctx):
               "the variational arm does not request results.n_thetas samples in a single call and add each of them")
 
 
-RULE_FUNCS = [r_all, r5]
+def r6(ctx):
+    """The schedule holds for every b >= 0 and chain 0 exists: a `must be set` refusal written as a truthiness test (`if not n_burnin`)
+    refuses the legal value 0.  Every raise of sample() whose innermost guard mentions one of the two parameters is evaluated,
+    three-valued, under `that parameter is 0`; a guard that is definitely true then is reported."""
+    from engine.astutil import stmt_conditions
+    from .common import truth3
+    f = ctx.fn("sampling.sample")
+    conds = stmt_conditions(f.node.body)
+    raises = [n for n in walk_own(f.node) if isinstance(n, ast.Raise)]
+    ctx.need(len(raises) >= 4, f"{f.site()}: the refusals of sample() were not found")
+    for P in ("n_burnin", "chain_index"):
+        ctx.need(P in f.params, f"{f.site()}: parameter `{P}` not found")
+        bad, seen = None, 0
+        for r in raises:
+            cs = conds.get(id(r))
+            if not cs:
+                continue
+            mine = [(t, pol) for t, pol in cs if P in names_in(t)]
+            if not mine or P not in names_in(cs[-1][0]):
+                continue
+            seen += 1
+            vals = []
+            for t, pol in mine:
+                v = truth3(t, {P})
+                vals.append(None if v is None else (v if pol else not v))
+            if all(v is True for v in vals):
+                bad = (r, cs[-1][0])
+        ctx.check("R6", f"{f.site()}::{P}=0-accepted", bad is None, f"no refusal fires for {P} = 0 ({seen} guard(s) on `{P}` evaluated)",
+                  f"the refusal guarded by `{U(bad[1]) if bad else ''}` fires for {P} = 0, a legal value" +
+                  (": a chain without burn-in cannot be sampled" if P == "n_burnin" else ": the first chain cannot be sampled"))
+
+
+RULE_FUNCS = [r_all, r5, r6]
 
 
 def run(ctx):
@@ -414,6 +447,7 @@ def _rep(a, b):
 
 
 WITNESSES = [
+    ("burn-in of 0 refused", "batchie.sampling", _rep("            if n_burnin is None:", "            if not n_burnin:"), ["R6"]),
     ("thinning counted from index", "batchie.sampling", _rep("if ((step_index + 1) % thin) == 0:", "if (step_index % thin) == 0:"), ["R3"]),
     ("every chain seeded identically", "batchie.sampling", _rep("rng = numpy.random.default_rng(seeds[chain_index])", "rng = numpy.random.default_rng(seed)"), ["R4"]),
     ("set_rng after burn-in", "batchie.sampling",
